@@ -153,11 +153,11 @@ void run_td(Input const& in, Ctx& ctx) {
 	ctx.desc << (std::is_same_v<T, int> ? "int " : "Tracked ");
 	auto r = vp::decode_root<D, false>(in, ctx);
 	r.kind = (r.kind % 3 == 0) ? vp::RK_ARRAY : (r.kind % 3 == 1 ? vp::RK_STATIC : vp::RK_REF);  // mutable roots only
-	vp::with_root<vp::CfgRaw, T, D>(r, [&](auto& root, Model m, T const* base, long N) {
+	vp::with_root<vp::CfgRaw, T, D, true>(r, [&](auto& root, Model m, T const* base, long N) {
 		auto* wbase = const_cast<T*>(base);
 		for(long i = 0; i < N; ++i) { wbase[i] = T(static_cast<int>(i)); }
 		Fin<T> fin{wbase, N, ctx, in, static_cast<void const*>(base), {}};
-		vp::Interp<Fin<T>, false> interp(in, ctx, fin);
+		vp::Interp<Fin<T>, false, 5, false, true> interp(in, ctx, fin);
 		interp.null_root = (N == 0);
 		interp.no_const = true;
 		long sz0[D]; vp::lib_sizes(root, sz0);
